@@ -190,10 +190,15 @@ Proof.
   intros T' E. inversion E; subst T'. exact C'.
 Qed.
 
-Lemma step_all g s e : cfg_consistent g -> InvAll g s -> InvAll g (step g s e).
+(* configurations without joined-table hierarchies under the validity strategy: the machine theorems below
+   cover flat classes and single-table hierarchies; for joined hierarchies the hierarchy pass of the model
+   (Model/Core.v hier_pass) is validated by the correspondence check only *)
+Definition flat_hier (g : cfg) : Prop := no_hierb g = true.
+
+Lemma step_all g s e : cfg_consistent g -> flat_hier g -> InvAll g s -> InvAll g (step g s e).
 Proof.
-  intros CC H. destruct e; simpl.
-  - apply flush_all; assumption.
+  intros CC FH H. destruct e; simpl.
+  - rewrite (hier_pass_flat g _ FH). apply flush_all; assumption.
   - destruct H as [H1 [[Hdb [Hc [VI [Hcache Herr]]]] Hn]].
     split; [apply (step_invw g s Commit); exact H1|]. split; [|reflexivity].
     unfold Inv2; simpl. repeat split; try apply Hdb; try contradiction; try discriminate; auto.
@@ -204,21 +209,21 @@ Proof.
   - destruct ((g_versioning g || g_native g) && u_live (s_uow s)); exact H.
 Qed.
 
-Theorem run_all g evs : cfg_consistent g -> InvAll g (run g evs).
+Theorem run_all g evs : cfg_consistent g -> flat_hier g -> InvAll g (run g evs).
 Proof.
-  intro CC. unfold run. apply fold_left_inv; [apply InvAll_init|].
+  intros CC FH. unfold run. apply fold_left_inv; [apply InvAll_init|].
   intros a b Ha _. apply step_all; assumption.
 Qed.
 
 (* ------------------------------------------------------------------ C03 at machine level *)
 Theorem reachable_tables_ok g evs :
-  cfg_consistent g ->
+  cfg_consistent g -> flat_hier g ->
   pk_unique (d_vt (s_db (run g evs))) /\ chain_v g (d_vt (s_db (run g evs))).
-Proof. intro CC. destruct (run_all g evs CC) as [_ [[H _] _]]. exact H. Qed.
+Proof. intros CC FH. destruct (run_all g evs CC FH) as [_ [[H _] _]]. exact H. Qed.
 
 (* the package never raises an error of its own on the version tables *)
-Theorem reachable_no_error g evs : cfg_consistent g -> s_err (run g evs) = false.
-Proof. intro CC. destruct (run_all g evs CC) as [_ [[_ [_ [_ [_ H]]]] _]]. exact H. Qed.
+Theorem reachable_no_error g evs : cfg_consistent g -> flat_hier g -> s_err (run g evs) = false.
+Proof. intros CC FH. destruct (run_all g evs CC FH) as [_ [[_ [_ [_ [_ H]]]] _]]. exact H. Qed.
 
 (* chain_v on the sub-table of one validity table is the plain chain_ok of VTable.v *)
 Lemma chain_v_table g t tab :
